@@ -461,12 +461,25 @@ func (t *Tpl) writeNode(w io.Writer, node *node, ctx *Ctx) (err error) {
 		}
 	case typeCondTrue, typeCondFalse, typeCase, typeDefault:
 		// Just walk over child nodes.
+		var lerr error
 		for i := 0; i < len(node.child); i++ {
 			ch := &node.child[i]
 			err = t.writeNode(w, ch, ctx)
+			if err == ErrLBreakLoop {
+				// Lazy break lets the current iteration finish, including the rest of this block.
+				lerr, err = err, nil
+				continue
+			}
+			if err == ErrContLoop && lerr != nil {
+				// Continue after a lazy break: the iteration ends here and so does the loop.
+				err = ErrBreakLoop
+			}
 			if err != nil {
 				return
 			}
+		}
+		if lerr != nil {
+			err = lerr
 		}
 	case typeLoopCount:
 		// Evaluate counter loops.
